@@ -1,5 +1,6 @@
 import Acra.Model.Net
 import Acra.Model.Pcap
+import Acra.Lemmas.Net
 namespace Acra.Props.C09
 open Acra.Py Acra.Model.Net Acra.Gen.Net
 
@@ -65,5 +66,51 @@ theorem PcapRecord_hdr16_rejects (t : Rec) (buf : Bytes) (h : buf.length ≠ 16)
     Rec.unpack t buf = (t, .error .value) := by
   have h' : ¬ (16 = buf.length) := by omega
   simp [Rec.unpack, RECORD_HEADER_FORMAT, Fmt.size, codesSize, Code.size, h']
+
+open Acra.Lemmas.Net in
+/-- `ARP.unpack` accepts a buffer exactly when it holds the whole 28-byte packet (shorter buffers fail with
+    struct.error or OSError depending on where they end) -/
+theorem ARP_accepts_iff (t : ARP) (buf : Bytes) : (ARP.unpack t buf).2 = .ok () ↔ 28 ≤ buf.length := by
+  constructor
+  · intro h
+    by_cases hl : 28 ≤ buf.length
+    · exact hl
+    · exfalso
+      revert h
+      simp only [ARP.unpack]
+      repeat' split
+      all_goals first
+        | (simp; done)
+        | (rename_i hlast; intro _; simp only [inetNtoa, slice_length] at hlast; split at hlast <;> first | omega | (simp at hlast))
+  · intro h; rw [ARP_unpack_eq _ _ h]
+
+open Acra.Lemmas.Net in
+/-- `Ethernet.unpack(fcs)` accepts a buffer exactly when the 14-byte header is there, a frame whose type field is
+    0x8100 also holds the tag and the inner type, and — with `fcs` — the last four bytes are the little-endian CRC-32
+    of everything before them -/
+theorem Ethernet_accepts_iff (t : Eth) (buf : Bytes) (fcs : Bool) :
+    (Eth.unpack t buf fcs).2 = .ok () ↔
+      14 ≤ buf.length ∧ (beNat (slice buf 12 14) = 0x8100 → 18 ≤ buf.length) ∧
+      (fcs = true → crc32 (buf.take (buf.length - 4)) = leNat (buf.drop (buf.length - 4))) := by
+  by_cases hl : buf.length < 14
+  · have hs : (Eth.unpack t buf fcs).2 = .error .struct := by
+      by_cases h6 : buf.length < 6
+      · rw [Eth.unpack, unpack48_error _ (by simp; omega)]
+      · by_cases h12 : buf.length < 12
+        · rw [Eth.unpack, unpack48_eq _ (by simp; omega)]
+          simp only
+          rw [unpack48_error _ (by simp; omega)]
+        · rw [Eth.unpack, unpack48_eq _ (by simp; omega)]
+          simp only
+          rw [unpack48_eq _ (by simp; omega)]
+          have : ¬ (12 + (2 + 0) ≤ buf.length) := by omega
+          simp [structUnpackFrom, Eth_unpack_fmt0, Fmt.size, codesSize, Code.size, this]
+    rw [hs]; simp; omega
+  · rw [Eth_unpack_eq _ _ _ (by omega)]
+    simp only [ethFinish, fld, ETH_TYPE_VLAN]
+    have h14 : 14 ≤ buf.length := by omega
+    by_cases hv : beNat (slice buf 12 14) = 33024 <;> by_cases h18 : 18 ≤ buf.length <;>
+      by_cases hc : crc32 (buf.take (buf.length - 4)) = leNat (buf.drop (buf.length - 4)) <;>
+      cases fcs <;> simp [hv, h18, hc, h14]
 
 end Acra.Props.C09
